@@ -116,6 +116,38 @@ def call_family(depth):
     return out
 
 
+def handler_family(depth):
+    """Protected calls WITH an error handler: handler outcome {returns, raises,
+    panics} x callee {ok, raises, panics} x {PCall+errfunc, CallByParam{Protect,
+    Handler}} x callee kind, made by the activation at `depth`; afterwards the
+    SAME activation goes on using every index-relative operation on its list."""
+    out = []
+    base = []
+    d = 1
+    for _ in range(depth - 1):
+        base.append({"op": "call", "prot": True, "args": [["n", 10 * d + 5]], "nret": -1})
+        d += 1
+    base += [{"op": "push", "v": ["n", 10 * d + 1]}, {"op": "push", "v": ["n", 10 * d + 2]}]
+    v = ["n", 10 * d + 3]
+    follow = [{"op": "gettop"}, {"op": "get", "i": 1}, {"op": "get", "i": -1}, {"op": "push", "v": v},
+              {"op": "insert", "v": v, "i": 1}, {"op": "replace", "i": -1, "v": v}, {"op": "remove", "i": 2},
+              {"op": "settop", "i": 1}, {"op": "pop", "n": 1}]
+    for apisel in (2, 3):
+        for hout in ("ret", "raise", "panic"):
+            for outcome in ("ok", "raise", "panic"):
+                for nargs in (0, 2):
+                    for nret in (-1, 1):
+                        args = [["n", 10 * d + 5 + j] for j in range(nargs)]
+                        for kindsel in range(4):          # host callee behind each kind of frame
+                            call = {"op": "call", "prot": True, "args": args, "nret": nret, "apisel": apisel,
+                                    "kindsel": kindsel, "hout": hout}
+                            end = {"op": "ret", "r": 1} if outcome == "ok" else {"op": "fail", "how": outcome}
+                            out.append(base + [call, {"op": "push", "v": ["n", 10 * (d + 1) + 1]}, end] + follow)
+                        out.append(base + [{"op": "callL", "prot": True, "args": args, "nret": nret, "p": 1,
+                                            "fail": outcome != "ok", "how": outcome, "apisel": apisel, "hout": hout}] + follow)
+    return out
+
+
 def idx_class(ev, n=None):
     i = ev["i"]
     if i == 0:
@@ -158,6 +190,8 @@ def stack_key(tr, v):
         return "C10:stack:%s:callL" % why
     if op in ("fail", "callL"):     # every protected API recovers through PCall; an error function adds a path
         h = ":errfunc" if ("errfunc" in ev.get("api", "") or "Handler" in ev.get("api", "")) else ""
+        if h and ev.get("hout") in ("raise", "panic"):
+            h = ":errfunc-fails"        # PCall's second recovery path
         return "C10:stack:%s:callee-fails%s" % (why, h)
     if "i" in ev:
         return "C10:stack:%s:%s:%s" % (why, op, idx_class(ev))
@@ -265,7 +299,7 @@ def consts(**kw):
 def stack_part(tier, verd, stats, ev):
     from concurrent.futures import ThreadPoolExecutor
     thorough = tier == "thorough"
-    nsim = 3000 if thorough else 800
+    nsim = 3000 if thorough else 600
     simc = {"MaxLen": "6", "Cap0": "5", "GrowBy": "1", "MaxDepth": "4", "MaxHist": "40", "Base0": "3",
             "Ind": "FALSE", "Slacks": "{100}"}
     W = TLCW if thorough else 4
@@ -318,6 +352,8 @@ def stack_part(tier, verd, stats, ev):
     fam = []
     for d in (1, 2, 3):
         fam += [close_history(h) for h in call_family(d)]
+    for d in (1, 2, 3):
+        fam += [close_history(h) for h in handler_family(d)]
     sets.append(("calls", fam))
     vlib.log("[C10] histories: " + ", ".join("%s %d" % (n, len(h)) for n, h in sets))
     cfgs = {"nested": {"mode": "nested", "grow": False, "depth0": 1, "gap": 0},
@@ -327,8 +363,8 @@ def stack_part(tier, verd, stats, ev):
             # the layers and the root run inside a coroutine (its own register file)
             "co": {"mode": "co", "grow": False, "depth0": 2, "gap": 0}}
     # quick: every set under the nested configuration or at top level, samples under the others
-    plan = {"ind": ["nested", "grow/2", "co/4"], "bfs": ["top", "nested2/3"], "sim": ["nested", "nested2", "grow", "top", "co"],
-            "calls": ["nested", "grow/3", "top/2", "co/2"]}
+    plan = {"ind": ["nested", "grow/3", "co/4"], "bfs": ["top", "nested2/3"], "sim": ["nested", "nested2", "grow", "top", "co"],
+            "calls": ["nested", "grow/4", "top/2", "co/3"]}
     if thorough:
         plan = {"ind": ["nested", "grow/8", "top/4", "co/8"], "bfs": ["nested/3", "top/2", "nested2/4", "grow/8", "co/8"],
                 "sim": ["nested", "nested2", "grow", "top", "co"], "calls": ["nested", "nested2", "grow", "top", "co"]}
@@ -432,6 +468,12 @@ def make_world(variant=1):
     add("n1", "tab", mt=names["MN"])
     add("MS", "tab", [[S("__index"), S("abc")]])
     add("s1", "tab", mt=names["MS"])
+    # __metatable = false / true / 0 / "" / a table (absent: MA.., a string: MC), each on a table and a userdata
+    for nm, val in (("false", ["b", False]), ("true", ["b", True]), ("zero", ["n", 0]), ("empty", S("")),
+                    ("tab", T("plain"))):
+        add("MM_" + nm, "tab", [[S("__metatable"), val], [S("__index"), T("plain")]])
+        add("mm_" + nm, "tab", mt=names["MM_" + nm])
+        add("um_" + nm, "ud", mt=names["MM_" + nm])
     # userdata
     add("ua1", "ud", mt=names["MA"])
     add("ue1", "ud", mt=names["ME"])
@@ -472,8 +514,8 @@ def obj_cases(world, names, tier, rng, w=1, cases=None):
     newvals = [S("new"), NIL, ["n", 5]]
     cases = [] if cases is None else cases
 
-    def add(op, a, gmt=0):
-        cases.append({"id": len(cases) + 1, "w": w, "op": op, "a": a, "gmt": gmt})
+    def add(op, a, gmt=0, tmt=None):
+        cases.append({"id": len(cases) + 1, "w": w, "op": op, "a": a, "gmt": gmt, "tmt": tmt or []})
     for o in vals:
         for k in keys:
             add("GetTable", [o, k])
@@ -485,6 +527,23 @@ def obj_cases(world, names, tier, rng, w=1, cases=None):
                 add("SetField", [o, f, v])
         add("GetMetatable", [o])
         add("ToStringMeta", [o])
+    # metatable visibility and protection: every kind of __metatable value (absent, false, true,
+    # 0, "", a string, a table) on tables, userdata and - as type metatables - on numbers, booleans,
+    # nil, functions and strings: GetMetatable vs the raw metatable vs setmetatable's protection
+    mms = ["MM_false", "MM_true", "MM_zero", "MM_empty", "MM_tab", "MC", "MA"]
+    for v in vals + [[tag, names[p + m[3:]]] for m in mms[:5] for tag, p in (("t", "mm_"), ("u", "um_"))]:
+        if v[0] in ("t", "u"):
+            if v not in vals:
+                add("GetMetatable", [v])
+                add("ToStringMeta", [v])
+                add("GetTable", [v, S("k1")])
+            add("RawMetatable", [v])
+        if v[0] == "t":
+            for m in (NIL, ["t", names["empty"]]):
+                add("ProtectedSet", [v, m])
+    for tag, sample in (("n", ["n", 10]), ("b", ["b", False]), ("nil", NIL), ("bi", ["bi", "F"]), ("s", S("abc"))):
+        for m in mms:
+            add("GetMetatable", [sample], tmt=[[tag, names[m]]])
     for gmt in (0, names["MGf"], names["MGt"]):
         for n in (S("c10g_present"), S("c10g_false"), S("c10g_absent"), S("k1")):
             add("GetGlobal", [n], gmt)
@@ -561,6 +620,16 @@ def obj_key(world, rec, v):
         kinds = kinds[:-1]          # the stored value does not select the path
     if op in ("GetGlobal", "SetGlobal"):
         kinds = ["gmt=%s" % ("none" if not rec["gmt"] else "handlers")]
+    if op in ("GetMetatable", "RawMetatable", "ProtectedSet"):
+        # what decides these is the __metatable field of the operand's (type) metatable
+        a = rec["a"][0]
+        ref = world["heap"][a[1] - 1]["mt"] if a[0] in ("t", "u") else dict((t, r) for t, r in rec.get("tmt", [])).get(a[0], 0)
+        f = [kv[1] for kv in world["heap"][ref - 1]["kv"] if kv[0] == S("__metatable")] if ref else None
+        cls = "no-metatable" if f is None else ("absent" if not f else
+              {"b": str(f[0][1]).lower(), "n": "number", "s": "string", "t": "table"}.get(f[0][0], f[0][0]) if f[0][0] != "b" else str(f[0][1]).lower())
+        if op == "RawMetatable" and f:
+            cls = "present"             # the raw metatable does not depend on the field's value
+        kinds = ["__metatable=%s" % cls]
     return "C10:obj:%s:%s:%s:%s" % (OP_GROUP.get(op, op), v["who"], v["why"], ",".join(kinds))
 
 
@@ -597,7 +666,7 @@ def obj_part(tier, verd, stats, ev, only=None, quiet=False):
         if crashed:
             verd.candidate("C10:obj:%s:crash:%s" % (r["op"], ",".join(kind_of(world, a) for a in r["a"])),
                            "%s%s: Go panic in the %s evaluation: %s" % (r["op"], json.dumps(r["a"]), crashed[0], r[crashed[0]]["crash"][:200]),
-                           {"part": "obj", "case": {k: r[k] for k in ("id", "w", "op", "a", "gmt")}, "record": r})
+                           {"part": "obj", "case": {k: r[k] for k in ("id", "w", "op", "a", "gmt", "tmt")}, "record": r})
         else:
             for s in ("api", "lua"):
                 r[s].pop("errmsg", None)
@@ -628,7 +697,7 @@ def obj_part(tier, verd, stats, ev, only=None, quiet=False):
             verd.candidate(obj_key(world, r, v), "%s%s: %s differs (%s): api=%s lua=%s%s" % (
                 r["op"], json.dumps(show(r["a"])), v["why"], v["who"], json.dumps(show(brief(r["api"]))), json.dumps(show(brief(r["lua"]))),
                 (" LuaSem=" + json.dumps(show(v["exp"]))) if v["exp"] else ""),
-                {"part": "obj", "case": {k: r[k] for k in ("id", "w", "op", "a", "gmt")}, "record": r, "verdict": v})
+                {"part": "obj", "case": {k: r[k] for k in ("id", "w", "op", "a", "gmt", "tmt")}, "record": r, "verdict": v})
     if not quiet:
         vlib.log("[C10] obj: %d cases validated by ApiObjTrace, %d decided by LuaSem as well (harness %.1fs, TLC %.1fs)" % (
             n, modelled, t1 - t0, time.time() - t1))
